@@ -297,20 +297,24 @@ pub fn replay_case(case: &Value) -> Option<(String, String)> {
     }
 }
 
-/// finish() of the builder after a history (for the C01 closure check)
+/// finish() of the builder after a history (for the C01 closure check). Values that mention "the id this value
+/// will get" are built from the builder's OWN `next_type_id()`, as a user of the builder would.
 pub fn finish_of(hist: &[u8]) -> scale_info::PortableRegistry {
     let mut b = PortableRegistryBuilder::new();
-    let mut model: Vec<PType> = vec![];
     for &k in hist {
-        let v = builder_value(k as usize, &model);
-        if !model.contains(&v) {
-            model.push(v.clone());
-        }
+        // a stand-in model of the right length makes builder_value use the announced id
+        let announced = b.next_type_id() as usize;
+        let stand_in: Vec<PType> = vec![prim(TypeDefPrimitive::Bool, &["stand-in"], &[], vec![]); announced];
+        let v = builder_value(k as usize, &stand_in);
         b.register_type(v);
     }
     b.finish()
 }
 
+/// true if the history contains no deliberately dangling forward reference (value 9)
+pub fn inputs_closed(hist: &[u8]) -> bool {
+    !hist.contains(&9)
+}
 
 // ------------------------------------------------------------------ long tables (symmetry-reduced)
 
